@@ -175,6 +175,31 @@ CLAIMED["C02"] = dict(
          "ecdh is visible only to the monitor; cases cannot be re-executed bit for bit (fresh keys, random signatures).",
     design="§8 C02", technique="Lean 4 proof (handler case analysis, event provenance through the receive path) + recorded differential correspondence")
 
+CLAIMED["C13"] = dict(
+    text="Lean theorems for EVERY value of the supported grammar (null, bool, int, float32 bit pattern, str, bytes, seq, map, set, registered "
+         "objects and enums, nested arbitrarily) and every registry: decoding the encoding of an in-domain value followed by any further "
+         "bytes yields the canonical value and leaves exactly those bytes (C13_decode_encode), hence concatenations decode one after "
+         "another and encodings are prefix-free; the encoder's integer width is the one the decoder reads for every 64-bit integer with "
+         "the four boundaries as exact-byte corollaries; values outside the domain are refused with Python's exception class and the "
+         "encoder accepts everything inside it (non-vacuity); both custom handshake codecs round-trip. Model tied to serializable.py by "
+         "differential runs on generated values/classes/enums (width boundaries, float specials as bit patterns, size limits, refusals).",
+    note=TRUST + "InDomain is explicit and decidable (well typed + Python set/dict canonicalisation succeeds); enum members mixed with raw values of "
+         "equal hash in one set/dict are outside it (late AttributeError at decode, counted by the monitor, see DESIGN).",
+    design="§8 C13", technique="Lean 4 proof (mutual round-trip induction with fuel, canonicalisation) + differential correspondence")
+
+CLAIMED["C14"] = dict(
+    text="Lean theorems for EVERY byte string and registry: the decoder is total - a value or one of the enumerated ordinary exception "
+         "classes, its fuel never runs out (C14_total); a successful result contains only built-in types and instances of registered "
+         "classes and the rest is a suffix of the input (C14_ok_well_typed); an instrumented decoder's loop/allocation count is bounded by "
+         "A*(input length + re-parsed bytes)+1 with A = 8 + largest field count (C14_cost_accounting), linear in the input alone for "
+         "every decode the server performs on unauthenticated peers (C14_cost_server, C14_handshake_server); the fully general linear "
+         "bound is proved under the stated hypothesis and shown false without it (nested attacker-signed server hellos re-parse their "
+         "payload; bounded by the datagram size) - C14_cost_linear_partial. Model tied to serializable.py/connection.py by differential "
+         "runs on random bytes, every truncation and bit flip of valid encodings incl. the handshake messages, crafted length fields, "
+         "nesting bombs; hang alarm, time and tracemalloc bounds on the real code.",
+    note=TRUST + "CPython's allocator and recursion limit are observed, not proved; crypto oracles raise only ordinary exceptions.",
+    design="§8 C14", technique="Lean 4 proof (totality, typing and cost invariants of an instrumented decoder) + differential correspondence")
+
 REASON_PENDING = "model and theorems for this property are not built yet in this revision (planned, see DESIGN.md §13); not claimed until its check exists"
 
 def main():
